@@ -40,6 +40,8 @@ func runC13(c *Ctx) {
 	}
 	c.guard("R13-window", func() { c13Window(c, m) })
 	c.guard("R13-failhard", func() { c13FailHard(c, m, rec) })
+	r.Rule("R13-frame", "the window handed to a child is the exact pre-image of the parent's window under Negate(IncrementMateDistance(.)) - a narrowed window clips the true value and nothing else (rule R03-window, re-decided here)", 20)
+	c.guard("R13-frame", func() { c03Window(c, m, "R13-frame") })
 	// inside the window the result is exact only if the negamax discipline holds, in particular the
 	// move loop is left early only on alpha >= beta (rules of C03, re-decided here)
 	c.guard("R13-exact", func() {
